@@ -207,6 +207,33 @@ def impl(case):
                     if fc is not None:
                         g.set_params(force_coords=fc)
             g.fit(coords, d[0] if ncomp == 1 else d)
+            h2 = zlib.crc32(("after" + case["op"]).encode()) % 3
+            if h2 == 1:
+                # after the fit, hyper-parameters that only steer FITTING are changed (the scikit-learn way: they take effect at the next fit);
+                # what the fitted model predicts is unchanged
+                shifted = (np.ravel(coords[0]) * 0.5 + 3.0, np.ravel(coords[1]) * 0.5 - 2.0)
+                for est in ([g] + [st for _, st in getattr(g, "steps", [])] + list(getattr(g, "components", []))):
+                    if isinstance(est, (vd.Spline,)):
+                        est.set_params(force_coords=shifted, damping=1e-2)
+                    if isinstance(est, vd.Chain):
+                        for _, st in est.steps:
+                            if isinstance(st, vd.Spline):
+                                st.set_params(force_coords=shifted, damping=1e-2)
+            if h2 == 2:
+                # after the fit, a refit is ATTEMPTED with arguments the estimator refuses up front (arrays of different sizes; for the
+                # tree-based ones a non-finite coordinate): the caller catches the error and goes on using the fitted estimator
+                bad = (np.ravel(coords[0])[:-1], np.ravel(coords[1]))
+                try:
+                    g.fit(bad, np.ravel(d[0]) if ncomp == 1 else tuple(np.ravel(x) for x in d))
+                except Exception:  # noqa: BLE001
+                    pass
+                if which in ("knn", "linear", "cubic"):
+                    e_bad = np.ravel(coords[0]).astype(float).copy()
+                    e_bad[0] = np.nan
+                    try:
+                        g.fit((e_bad, np.ravel(coords[1])), -7.5 * np.ravel(d[0]).astype(float) + 1.0)
+                    except Exception:  # noqa: BLE001
+                        pass
             pred = g.predict(coords)
             pred = (pred,) if ncomp == 1 else pred
             if any(list(p.shape) != list(shape2d) for p in pred):
